@@ -462,6 +462,29 @@ func (t *Tunnel) doOnce(r Req) (*Resp, error) {
 	return readResp(t.br, r.Method, t0)
 }
 
+// DoPipelined writes all requests with one Write (a pipelining client: the later requests reach the proxy
+// together with the first one's tail) and then reads the answers in order. It stops at the first failure.
+func (t *Tunnel) DoPipelined(rs []Req) ([]*Resp, error) {
+	t.raw.SetDeadline(time.Now().Add(Timeout))
+	t0 := time.Now()
+	var all []byte
+	for _, r := range rs {
+		all = append(all, r.bytes(false)...)
+	}
+	if _, err := t.tls.Write(all); err != nil {
+		return nil, err
+	}
+	var out []*Resp
+	for _, r := range rs {
+		resp, err := readResp(t.br, r.Method, t0)
+		if err != nil {
+			return out, err
+		}
+		out = append(out, resp)
+	}
+	return out, nil
+}
+
 func (t *Tunnel) Close() { t.tls.Close(); t.raw.Close() }
 
 // Via sends r over the given transport: "plain" (fresh connection) or "tunnel" (fresh tunnel).
